@@ -6,7 +6,7 @@ from . import workload as W
 from . import sim as S
 from . import hazards as H
 
-MAIN_FAMILIES = ("ONE0", "ONE1", "DISJ", "CONF")
+MAIN_FAMILIES = ("ONE0", "ONE1", "DISJ", "CONF", "REUSE0", "REUSE1")
 
 
 def make_case(seed, prop, index, families=MAIN_FAMILIES, flavours=S.FLAVOURS_MAIN, shapes=W.SHAPES,
@@ -29,6 +29,8 @@ def make_case(seed, prop, index, families=MAIN_FAMILIES, flavours=S.FLAVOURS_MAI
         case = g.case_one(flavour, shape, int(fam[-1]), n, base_side=rng.randrange(2), seek=True)
     elif fam == "SDISJ":
         case = g.case_disj(flavour, shape, n, seek=True)
+    elif fam in ("REUSE0", "REUSE1"):
+        case = g.case_reuse(flavour, shape, int(fam[-1]), n, base_side=rng.randrange(2))
     elif fam == "CLASH":
         case = g.case_conf(flavour, shape, n, clash=True)
     elif fam == "SEEK1":
@@ -48,7 +50,7 @@ def indices(ctx, total):
 
 
 def hazard_free_by_construction(case):
-    return case["family"] in ("ONE0", "ONE1", "DISJ", "CONF")
+    return case["family"] in ("ONE0", "ONE1", "DISJ", "CONF", "REUSE0", "REUSE1")
 
 
 def classify(case):
